@@ -213,6 +213,7 @@ type World struct {
 	genesis    []byte
 
 	Stats   *Stats
+	Halted  bool // the chain halted in an analysed, SDK-owned way (runner.go AnalysedHalts)
 	Trace   *Trace
 	Diverge *Violation // set by the replica comparator
 
